@@ -894,7 +894,8 @@ class Eval:
         # ---- crate helpers: evaluate the callee's return value with the arguments bound
         tgts = self.prog.call_targets(call)
         tgt = tgts[0] if len(tgts) == 1 else None
-        if tgt is not None and self.depth < 3 and not all(is_zero(x) and not has_q(x) for x in v):
+        if tgt is not None and self.depth < 3 and (
+                not all(is_zero(x) and not has_q(x) for x in v) or self._has_round_const(tgt)):
             sub = Eval(self.prog, tgt, self.depth + 1, {i + 1: {x} for i, x in enumerate(v)})
             outs = set()
             for (bb, j, rv, whole) in tgt.defs().get(0, []):
